@@ -1,11 +1,12 @@
 /-
 C01/C02/C05/C14/C15 — whole documents: enums, tables (columns in any form that is read back, possibly under a comment),
-inline and standalone references between their columns, table groups over these tables, sticky notes — rendered and read back to the same database
+a project, inline and standalone references between their columns, table groups over these tables, sticky notes — rendered and read back to the same database
 (`document_roundtrip`, and its instance for columns with settings `flags_document_roundtrip_partial`).
 -/
 import PyDBMLProofs.Props.C02Group
 import PyDBMLProofs.Props.C02FlagsTables
 import PyDBMLProofs.Props.C02Inline
+import PyDBMLProofs.Props.C02Project
 namespace PyDBML
 namespace C02
 open Lex Grammar Build
@@ -23,6 +24,10 @@ structure DocSpec (σ : Type) where
   /-- table groups: a name and the POSITIONS of the member tables -/
   groups : List (Str × List Nat) := []
   sticky : List Sticky := []
+  /-- the project: its name and its items `key: 'value'`, in order -/
+  project : Option (Str × List (Str × Str)) := none
+
+def mkProject (p : Str × List (Str × Str)) : Project := { name := p.1, items := p.2 }
 
 def mkEnum (e : ESpec) : Enum := plainEnum e.1 e.2
 
@@ -35,7 +40,7 @@ def ColForm.gnames (F : ColForm σ) (ts : List (FTab σ)) (g : Str × List Nat) 
 def DocSpec.db (F : ColForm σ) (ap : Bool) (d : DocSpec σ) : Db :=
   { enums := d.enums.map mkEnum, tables := d.tables.map F.mkTable,
     refs := d.inl.map (fun r => mkRefB (r, true)) ++ d.refs.map mkRef,
-    groups := d.groups.map mkGroup, sticky := d.sticky, allowProps := ap }
+    groups := d.groups.map mkGroup, sticky := d.sticky, project := d.project.map mkProject, allowProps := ap }
 
 structure DocOK (F : ColForm σ) (ap : Bool) (d : DocSpec σ) : Prop where
   enums : ∀ e ∈ d.enums, ESpecOK e
@@ -59,6 +64,7 @@ structure DocOK (F : ColForm σ) (ap : Bool) (d : DocSpec σ) : Prop where
   groups : ∀ g ∈ d.groups, NameOK g.1 ∧ g.2.Nodup ∧ ∀ i ∈ g.2, i < d.tables.length
   groupNames : d.groups.Pairwise (fun a b => a.1 ≠ b.1)
   sticky : ∀ s ∈ d.sticky, StickyOK s
+  project : ∀ p ∈ d.project.toList, ProjectOK p.1 p.2
 
 /-! ### the element forms of the document -/
 
@@ -100,7 +106,8 @@ theorem gnames_ok (F : ColForm σ) (ap : Bool) (d : DocSpec σ) (h : DocOK F ap 
   simpa [ColForm.tnameAt, List.getElem?_eq_getElem hl] using this.1
 
 def DocSpec.forms (F : ColForm σ) (ap : Bool) (d : DocSpec σ) (h : DocOK F ap d) : List (EForm ap) :=
-  d.enums.pmap (fun e he => enumE ap e he) h.enums
+  d.project.toList.pmap (fun p hp => projectE ap p.1 p.2 hp) h.project
+  ++ d.enums.pmap (fun e he => enumE ap e he) h.enums
   ++ d.tables.pmap (fun t ht => F.tableE ap t ht) h.tables
   ++ (d.refs.map (F.rtext d.tables)).pmap (fun r hr => refE ap r hr) (rtext_ok F ap d h)
   ++ d.groups.pmap (fun g hg => groupE ap g.1 (F.gnames d.tables g) hg.1 hg.2) (gnames_ok F ap d h)
@@ -108,20 +115,24 @@ def DocSpec.forms (F : ColForm σ) (ap : Bool) (d : DocSpec σ) (h : DocOK F ap 
 
 /-- the blueprints the document rule reads -/
 def DocSpec.elems (F : ColForm σ) (d : DocSpec σ) : List Bp.Elem :=
-  d.enums.map mkEnumElem ++ d.tables.map F.mkElem ++ (d.refs.map (F.rtext d.tables)).map mkRefElem
+  d.project.toList.map (fun p => Bp.Elem.project (projectBpOf p.1 p.2)) ++ d.enums.map mkEnumElem ++ d.tables.map F.mkElem
+    ++ (d.refs.map (F.rtext d.tables)).map mkRefElem
     ++ d.groups.map (fun g => Bp.Elem.group (groupBpOf g.1 (F.gnames d.tables g)))
     ++ d.sticky.map mkStickyElem
 
 /-- the texts of the elements, in the order the renderer writes them -/
 def DocSpec.texts (F : ColForm σ) (d : DocSpec σ) : List Str :=
-  d.enums.map (fun e => enumText e.1 e.2) ++ d.tables.map F.tabText ++ (d.refs.map (F.rtext d.tables)).map refText
+  d.project.toList.map (fun p => projectText p.1 p.2) ++ d.enums.map (fun e => enumText e.1 e.2) ++ d.tables.map F.tabText
+    ++ (d.refs.map (F.rtext d.tables)).map refText
     ++ d.groups.map (fun g => groupText g.1 (F.gnames d.tables g))
     ++ d.sticky.map (fun s => stickyText s.name s.text)
 
 theorem DocSpec.forms_elems (F : ColForm σ) (ap : Bool) (d : DocSpec σ) (h : DocOK F ap d) :
     (d.forms F ap h).map (·.elem) = d.elems F := by
   simp only [DocSpec.forms, DocSpec.elems, List.map_append]
-  rw [map_pmap_const (fun e he => enumE ap e he) (·.elem) mkEnumElem (fun _ _ => rfl),
+  rw [map_pmap_const (fun (p : Str × List (Str × Str)) (hp : ProjectOK p.1 p.2) => projectE ap p.1 p.2 hp) (·.elem)
+      (fun p => Bp.Elem.project (projectBpOf p.1 p.2)) (fun _ _ => rfl),
+    map_pmap_const (fun e he => enumE ap e he) (·.elem) mkEnumElem (fun _ _ => rfl),
     map_pmap_const (fun t ht => F.tableE ap t ht) (·.elem) F.mkElem (fun _ _ => rfl),
     map_pmap_const (fun r hr => refE ap r hr) (·.elem) mkRefElem (fun _ _ => rfl),
     map_pmap_const (fun g hg => groupE ap g.1 (F.gnames d.tables g) hg.1 hg.2) (·.elem)
@@ -131,7 +142,9 @@ theorem DocSpec.forms_elems (F : ColForm σ) (ap : Bool) (d : DocSpec σ) (h : D
 theorem DocSpec.forms_texts (F : ColForm σ) (ap : Bool) (d : DocSpec σ) (h : DocOK F ap d) :
     (d.forms F ap h).map (·.text) = d.texts F := by
   simp only [DocSpec.forms, DocSpec.texts, List.map_append]
-  rw [map_pmap_const (fun e he => enumE ap e he) (·.text) (fun e => enumText e.1 e.2) (fun e he => enumE_text ap e he),
+  rw [map_pmap_const (fun (p : Str × List (Str × Str)) (hp : ProjectOK p.1 p.2) => projectE ap p.1 p.2 hp) (·.text)
+      (fun p => projectText p.1 p.2) (fun p hp => projectE_text ap p.1 p.2 hp),
+    map_pmap_const (fun e he => enumE ap e he) (·.text) (fun e => enumText e.1 e.2) (fun e he => enumE_text ap e he),
     map_pmap_const (fun t ht => F.tableE ap t ht) (·.text) F.tabText (fun t ht => F.tableE_text ap t ht),
     map_pmap_const (fun r hr => refE ap r hr) (·.text) refText (fun r hr => refE_text ap r hr),
     map_pmap_const (fun g hg => groupE ap g.1 (F.gnames d.tables g) hg.1 hg.2) (·.text)
@@ -272,11 +285,14 @@ theorem DocSpec.build (F : ColForm σ) (ap : Bool) (d : DocSpec σ) (h : DocOK F
   have hS : stickyBps (d.elems F) = d.sticky.map fun s => ({ name := s.name, text := s.text } : Bp.StickyBp) := by
     simp [stickyBps, DocSpec.elems, mkEnumElem, ColForm.mkElem, mkRefElem, mkStickyElem, List.filterMap_append,
       List.filterMap_map, Function.comp_def]
-  have hP : projectBp (d.elems F) = none := by
-    simp [projectBp, DocSpec.elems, mkEnumElem, ColForm.mkElem, mkRefElem, mkStickyElem, List.filterMap_append,
-      List.filterMap_map, Function.comp_def]
+  have hP : projectBp (d.elems F) = d.project.map fun p => projectBpOf p.1 p.2 := by
+    cases hpj : d.project <;>
+      simp [projectBp, DocSpec.elems, hpj, mkEnumElem, ColForm.mkElem, mkRefElem, mkStickyElem, List.filterMap_append,
+        List.filterMap_map, Function.comp_def]
   have hR : refBlueprints (d.elems F)
       = (d.inl.map (fun r => (r, true)) ++ d.refs.map (fun r => (r, false))).map (F.bpB d.tables) := by
+    have h0 : refBlueprints (d.project.toList.map fun p => Bp.Elem.project (projectBpOf p.1 p.2)) = [] := by
+      cases d.project <;> simp [refBlueprints]
     have h1 : refBlueprints (d.enums.map mkEnumElem) = [] := by
       simp [refBlueprints, mkEnumElem, List.flatMap_map]
     have h2 : refBlueprints (d.tables.map F.mkElem) = d.inl.map (fun r => F.bpB d.tables (r, true)) := by
@@ -299,7 +315,7 @@ theorem DocSpec.build (F : ColForm σ) (ap : Bool) (d : DocSpec σ) (h : DocOK F
       simp [refBlueprints, mkStickyElem, List.flatMap_map]
     have h5 : refBlueprints (d.groups.map fun g => Bp.Elem.group (groupBpOf g.1 (F.gnames d.tables g))) = [] := by
       simp [refBlueprints, List.flatMap_map]
-    simp only [DocSpec.elems, refBlueprints_append, h1, h2, h4, h5, refBlueprints_refElems]
+    simp only [DocSpec.elems, refBlueprints_append, h0, h1, h2, h4, h5, refBlueprints_refElems]
     simp [List.map_map, Function.comp_def, ColForm.bpB_false]
   have hFe := foldlM_enums d.enums [] (by simpa using h.enumNames)
   simp only [List.map_nil, List.nil_append] at hFe
@@ -320,7 +336,7 @@ theorem DocSpec.build (F : ColForm σ) (ap : Bool) (d : DocSpec σ) (h : DocOK F
   simp only [List.map_nil, List.nil_append] at hFg
   have hRf := F.foldlM_refsB d.tables h.resolvable
     { tables := d.tables.map F.mkTable, enums := d.enums.map mkEnum, allowProps := ap, groups := d.groups.map mkGroup,
-      sticky := d.sticky, project := none } rfl (d.inl.map (fun r => (r, true)) ++ d.refs.map (fun r => (r, false))) []
+      sticky := d.sticky, project := d.project.map mkProject } rfl (d.inl.map (fun r => (r, true)) ++ d.refs.map (fun r => (r, false))) []
     (by
       intro x hx
       simp only [List.nil_append, List.mem_append, List.mem_map] at hx
@@ -334,8 +350,10 @@ theorem DocSpec.build (F : ColForm σ) (ap : Bool) (d : DocSpec σ) (h : DocOK F
     simp only [List.map_append, List.map_map]
     rfl
   rw [hmk] at hRf
+  have hBP : buildProject (d.project.map fun p => projectBpOf p.1 p.2) = .ok (d.project.map mkProject) := by
+    cases d.project <;> simp [buildProject, buildNote, projectBpOf, mkProject, bind, Except.bind, pure, Except.pure]
   unfold buildDatabase
-  simp only [hE, hT, hG, hS, hP, hR, hFe, hFt, hFg, hst, List.foldlM_nil, pure, Except.pure, bind, Except.bind, buildProject]
+  simp only [hE, hT, hG, hS, hP, hR, hFe, hFt, hFg, hst, hBP, List.foldlM_nil, pure, Except.pure, bind, Except.bind]
   rw [hRf]
   rfl
 
@@ -477,8 +495,15 @@ theorem DocSpec.render (F : ColForm σ) (ap : Bool) (d : DocSpec σ) (h : DocOK 
     apply List.map_congr_left
     intro s hs
     exact renderSticky_plain s (h.sticky s hs).2.2.1
-  unfold Dbml.renderDb Dbml.renderProjectList
-  simp only [bind, Except.bind, htabs, hrefs, henums, hsticky, hgroups]
+  have hproj : Dbml.renderProjectList (d.db F ap) = .ok (d.project.toList.map fun p => projectText p.1 p.2) := by
+    unfold Dbml.renderProjectList
+    cases hpj : d.project with
+    | none => simp [DocSpec.db, hpj]
+    | some p =>
+      have hok := h.project p (by simp [hpj])
+      simp [DocSpec.db, hpj, mkProject, renderProject_ok p.1 p.2 hok, Except.map]
+  unfold Dbml.renderDb
+  simp only [bind, Except.bind, hproj, htabs, hrefs, henums, hsticky, hgroups]
   simp [DocSpec.db, DocSpec.texts, pure, Except.pure]
 
 /-- **the round trip of whole documents.**  A database holding any number of enums (schema public, pairwise different
@@ -557,6 +582,8 @@ abbrev FlagDoc := DocSpec FCol
       `hwritten` says that the columns' `irefs` are exactly the names of these) or standalone (`d.refs`),
     * any number of table groups with pairwise different quoted names over these tables (no table twice in a group),
     * any number of sticky notes with a bare name and a one-line text,
+    * possibly a project with a quoted name and at least one item `key: 'value'` (keys: pairwise different bare identifiers
+      not beginning with `note`; values: plain lines),
     is rendered to DBML and parsed back to exactly the same database - every element once, in its section, in order; the
     comments on the same tables; the references linked, by table and column name, to the very columns they were written
     from, the inline ones still inline on the same column and before the standalone ones.  The hypotheses on names are exactly the recorded findings (no dot in a table name, a column name is one
@@ -578,7 +605,8 @@ theorem flags_document_roundtrip_partial (ap : Bool) (d : FlagDoc)
     (hgroups : ∀ g ∈ d.groups, NameOK g.1 ∧ g.2.Nodup ∧ ∀ i ∈ g.2, i < d.tables.length)
     (hgnames : d.groups.Pairwise (fun a b => a.1 ≠ b.1))
     (hsticky : ∀ s ∈ d.sticky, s.name ≠ [] ∧ s.name.all isNameChar = true ∧ Plain s.text ∧ hasTriple s.text = false
-      ∧ norm s.text = s.text) :
+      ∧ norm s.text = s.text)
+    (hproject : ∀ p ∈ d.project.toList, ProjectOK p.1 p.2) :
     ∃ text, Dbml.renderDb (d.db flagForm ap) = .ok text ∧ Build.parse ap text = .ok (d.db flagForm ap) :=
   document_roundtrip flagForm ap d
     { enums := henums, enumNames := henames, tables := htabs, tablesNe := hne,
@@ -589,7 +617,7 @@ theorem flags_document_roundtrip_partial (ap : Bool) (d : FlagDoc)
         obtain ⟨e0, he0, rfl⟩ := List.mem_map.mp he
         exact hshadow t ht s hs e0 he0),
       refsIn := fun r hr => hin r (by simp [hr]), inlIn := fun r hr => hin r (by simp [hr]), inlKind := hkind,
-      inlWritten := hwritten, refsNodup := hnd, groups := hgroups, groupNames := hgnames, sticky := hsticky }
+      inlWritten := hwritten, refsNodup := hnd, groups := hgroups, groupNames := hgnames, sticky := hsticky, project := hproject }
 
 /-- the rendered text of a small document of every covered kind (a test of the statement on one literal) -/
 example : joinWith (lit "\n\n") (DocSpec.texts flagForm
@@ -598,8 +626,9 @@ example : joinWith (lit "\n\n") (DocSpec.texts flagForm
                    { name := lit "b", cols := [{ name := lit "a id", type := lit "int", dflt := lit "1" }], comment := some (lit "child") }],
         refs := [{ kind := .manyToOne, t1 := 1, c1 := 0, t2 := 0, c2 := 0 }],
         groups := [(lit "g1", [1, 0])],
-        sticky := [{ name := lit "todo", text := lit "check" }] })
-    = lit "Enum \"status\" {\n    \"new\"\n    \"done\"\n}\n\nTable \"a\" {\n    \"id\" int [pk]\n}\n\n// child\nTable \"b\" {\n    \"a id\" int [default: 1]\n}\n\nRef {\n    \"b\".\"a id\" > \"a\".\"id\"\n}\n\nTableGroup \"g1\" {\n    \"b\"\n    \"a\"\n}\n\nNote todo {\n    'check'\n}" := by
+        sticky := [{ name := lit "todo", text := lit "check" }],
+        project := some (lit "shop", [(lit "database_type", lit "PostgreSQL"), (lit "owner", lit "it's me")]) })
+    = lit "Project \"shop\" {\n    database_type: 'PostgreSQL'\n    owner: 'it\\'s me'\n}\n\nEnum \"status\" {\n    \"new\"\n    \"done\"\n}\n\nTable \"a\" {\n    \"id\" int [pk]\n}\n\n// child\nTable \"b\" {\n    \"a id\" int [default: 1]\n}\n\nRef {\n    \"b\".\"a id\" > \"a\".\"id\"\n}\n\nTableGroup \"g1\" {\n    \"b\"\n    \"a\"\n}\n\nNote todo {\n    'check'\n}" := by
   decide +kernel
 
 /-- non-vacuity of the hypotheses on inline references: table `b` hosts `ref: > "a"."id"` on its first column and
